@@ -947,7 +947,7 @@ package sod
 //@ ensures [C01 getByUUID.stored] imp(has(db.schemas, T) && db.schemas[T].coherent && has(db.schemas[T].ObjectIndex.uuids, uuid), (err == nil && out != nil && out.uuid == uuid && out.content == value(db, db.schemas[T], uuid)) || isStorage(err))
 //@ ensures [C01 getByUUID.absent] imp(has(db.schemas, T) && db.schemas[T].coherent && !has(db.schemas[T].ObjectIndex.uuids, uuid), err != nil && !isStorage(err))
 //@ ensures [C01 getByUUID.wf] wfDB(db)
-//@ ensures [C01 getByUUID.readonly] FSk == old(FSk) && FSc == old(FSc)
+//@ ensures [C01 getByUUID.readonly] FSk == old(FSk) && FSc == old(FSc) && asyncwSame(db)
 //@ ensures [C01 getByUUID.others] db.schemas == old(db.schemas) && forallk(t, string, imp(t != T, has(db.schemas, t) == old(has(db.schemas, t)) && db.schemas[t] == old(db.schemas[t]))) && imp(old(has(db.schemas, T)), has(db.schemas, T) && db.schemas[T] == old(db.schemas[T]))
 //@ modifies Object.uuid@in, MapDom[string,*Schema]@db.schemas, MapVal[string,*Schema]@db.schemas, MapCard[string,*Schema]@db.schemas, Async.routineStarted, Object.content@in, MapDom[string,*objectMap]@db.cache.m, MapVal[string,*objectMap]@db.cache.m, MapCard[string,*objectMap]@db.cache.m, MapDom[string,Object], MapVal[string,Object], MapCard[string,Object]
 
@@ -1052,7 +1052,7 @@ package sod
 //@ ensures [C01 C20 next.absent] imp(inr && has(db.schemas, T) && db.schemas[T].coherent && !has(db.schemas[T].ObjectIndex.uuids, it.uuids[k]), err != nil && !isStorage(err))
 //@ ensures [C01 next.same] it.uuids == old(it.uuids) && it.reverse == old(it.reverse) && it.db == db && it.tdyn == old(it.tdyn)
 //@ ensures [C01 next.wf] wfDB(db)
-//@ ensures [C01 next.readonly] FSk == old(FSk) && FSc == old(FSc)
+//@ ensures [C01 next.readonly] FSk == old(FSk) && FSc == old(FSc) && asyncwSame(db)
 //@ ensures [C01 next.others] db.schemas == old(db.schemas) && forallk(t, string, imp(t != T, has(db.schemas, t) == old(has(db.schemas, t)) && db.schemas[t] == old(db.schemas[t]))) && imp(old(has(db.schemas, T)), has(db.schemas, T) && db.schemas[T] == old(db.schemas[T]))
 //@ modifies iterator.i@it, MapDom[string,*Schema]@it.db.schemas, MapVal[string,*Schema]@it.db.schemas, MapCard[string,*Schema]@it.db.schemas, Async.routineStarted, MapDom[string,*objectMap]@it.db.cache.m, MapVal[string,*objectMap]@it.db.cache.m, MapCard[string,*objectMap]@it.db.cache.m, MapDom[string,Object], MapVal[string,Object], MapCard[string,Object]
 //@ allocates Object.content, Object.uuid, Object.stage, objectMap.m, objectMap.RWMutex
@@ -1179,3 +1179,105 @@ package sod
 //@ ensures [C13 One.none] imp(old(s.err) == nil && m == 0, err == ErrNoObjectFound)
 //@ ensures [C13 One.first] imp(err == nil && has(db.schemas, T) && db.schemas[T].coherent, o != nil && o.uuid == ite(has(db.schemas[T].ObjectIndex.ObjectIds, s.fields[ite(s.reverse, m-1, 0)].ObjectId), db.schemas[T].ObjectIndex.ObjectIds[s.fields[ite(s.reverse, m-1, 0)].ObjectId], ""))
 //@ modifies Ghost.ACQ_H, Search.limit@s, iterator.i, iterator.reverse, MapDom[string,*Schema]@s.db.schemas, MapVal[string,*Schema]@s.db.schemas, MapCard[string,*Schema]@s.db.schemas, Async.routineStarted, MapDom[string,*objectMap], MapVal[string,*objectMap], MapCard[string,*objectMap], MapDom[string,Object], MapVal[string,Object], MapCard[string,Object]
+
+//@ func (*DB).iterator
+//@ serves C01 C08 C09 C12
+//@ requires [wf] wfDBbase(db) && of != nil
+//@ requires [C08 locked] H >= 1
+//@ requires [C09 lock-free] SL == 0 && HS == 0 && HM == 0
+//@ let T string := stypeOf(dyntype(of))
+//@ ghost w garray[string]int := w
+//@ ensures [C01 iter.fresh] imp(err == nil, it != nil && fresh(it) && it.db == db && it.i == 0 && !it.reverse && it.tdyn == dyntype(of) && has(db.schemas, T) && fresh(arr(it.uuids)))
+//@ ensures [C01 iter.sound] imp(err == nil, forall(k, 0, len(it.uuids), has(db.schemas[T].ObjectIndex.uuids, it.uuids[k])))
+//@ ensures [C01 iter.distinct] imp(err == nil, forall(a, 0, len(it.uuids), forall(b, a+1, len(it.uuids), it.uuids[a] != it.uuids[b])))
+//@ ensures [C01 iter.complete] imp(err == nil, forallk(u, string, imp(has(db.schemas[T].ObjectIndex.uuids, u), 0 <= w[u] && w[u] < len(it.uuids) && it.uuids[w[u]] == u)))
+//@ ensures [C01 iter.wf] wfDBbase(db) && imp(old(collsOK(db)), collsOK(db))
+//@ ensures [C17 iter.readonly] FSk == old(FSk) && FSc == old(FSc)
+//@ ensures [C01 iter.others] db.schemas == old(db.schemas) && forallk(t, string, imp(t != T, has(db.schemas, t) == old(has(db.schemas, t)) && db.schemas[t] == old(db.schemas[t]))) && imp(old(has(db.schemas, T)), has(db.schemas, T) && db.schemas[T] == old(db.schemas[T]))
+//@ loop 1 ghost w garray[string]int
+//@ loop 1 update w u := ite(u == uuid, len(uuids) - 1, w[u])
+//@ loop 1 invariant [frame] preserved(Elem[string])
+//@ loop 1 invariant [fresh] fresh(arr(uuids)) && 0 <= len(uuids)
+//@ loop 1 invariant [listed-visited] forall(k, 0, len(uuids), has(s.ObjectIndex.uuids, uuids[k]) && visited(uuids[k]))
+//@ loop 1 invariant [distinct] forall(a, 0, len(uuids), forall(b, a+1, len(uuids), touch(uuids[a]) && touch(uuids[b]) && uuids[a] != uuids[b]))
+//@ loop 1 invariant [visited-listed] forallk(u, string, imp(visited(u) && has(s.ObjectIndex.uuids, u), 0 <= w[u] && w[u] < len(uuids) && uuids[w[u]] == u && trig(w[u])))
+//@ modifies MapDom[string,*Schema]@db.schemas, MapVal[string,*Schema]@db.schemas, MapCard[string,*Schema]@db.schemas, Async.routineStarted
+//@ allocates Elem[string], iterator.db, iterator.t, iterator.i, iterator.reverse, iterator.uuids, iterator.tdyn
+
+//@ func (*DB).all
+//@ serves C01 C08 C09 C12 C14
+//@ requires [wf] wfDB(db) && of != nil
+//@ requires [C08 locked] H >= 1
+//@ requires [C09 lock-free] SL == 0 && HS == 0 && HM == 0
+//@ let T string := stypeOf(dyntype(of))
+//@ ghost w garray[string]int := iterator_w
+//@ ensures [C01 all.sound] imp(err == nil && has(db.schemas, T) && db.schemas[T].coherent, forall(k, 0, len(out), out[k] != nil && has(db.schemas[T].ObjectIndex.uuids, out[k].uuid) && out[k].content == value(db, db.schemas[T], out[k].uuid)))
+//@ ensures [C01 all.distinct] imp(err == nil && has(db.schemas, T) && db.schemas[T].coherent, forall(a, 0, len(out), forall(b, a+1, len(out), touch(out[a]) && touch(out[b]) && out[a].uuid != out[b].uuid)))
+//@ ensures [C01 all.complete] imp(err == nil && has(db.schemas, T) && db.schemas[T].coherent, forallk(u, string, imp(has(db.schemas[T].ObjectIndex.uuids, u), 0 <= w[u] && w[u] < len(out) && out[w[u]].uuid == u)))
+//@ ensures [C01 all.wf] wfDB(db)
+//@ ensures [C17 all.readonly] FSk == old(FSk) && FSc == old(FSc)
+//@ loop 1 let sch *Schema := db.schemas[T]
+//@ loop 1 let idx *objIndex := db.schemas[T].ObjectIndex
+//@ loop 1 invariant [frame] preserved(iterator.uuids, iterator.reverse, iterator.db, iterator.tdyn, Elem[string], MapDom[string,uint64], MapVal[string,uint64], objIndex.uuids, Schema.ObjectIndex, Schema.coherent, Elem[Object]) && preservedAt(MapDom[string,*Schema], db.schemas) && preservedAt(MapVal[string,*Schema], db.schemas) && preservedAt(MapCard[string,*Schema], db.schemas)
+//@ loop 1 invariant [it] it != nil && fresh(it) && it.db == db && it.tdyn == dyntype(of) && !it.reverse && fresh(arr(it.uuids)) && fresh(arr(out)) && len(it.uuids) <= 72057594037927936
+//@ loop 1 invariant [table] has(db.schemas, T) && db.schemas[T] == sch && sch.ObjectIndex == idx
+//@ loop 1 invariant [ro] FSk == old(FSk) && FSc == old(FSc) && wfDB(db) && asyncwSame(db)
+//@ loop 1 invariant [listed] forall(k, 0, len(it.uuids), has(idx.uuids, it.uuids[k])) && forall(a, 0, len(it.uuids), forall(b, a+1, len(it.uuids), it.uuids[a] != it.uuids[b])) && forallk(u, string, imp(has(idx.uuids, u), 0 <= iterator_w[u] && iterator_w[u] < len(it.uuids) && it.uuids[iterator_w[u]] == u))
+//@ loop 1 invariant [cursor] 0 <= len(out) && ((err != ErrEOI && len(out) < len(it.uuids) && it.i == len(out) + 1) || (err == ErrEOI && len(out) == len(it.uuids) && o == nil))
+//@ loop 1 invariant [collected] imp(sch.coherent, forall(k, 0, len(out), out[k] != nil && out[k].uuid == it.uuids[k] && out[k].content == value(db, sch, it.uuids[k])))
+//@ loop 1 invariant [current] imp(err == nil && sch.coherent, o != nil && o.uuid == it.uuids[len(out)] && o.content == value(db, sch, it.uuids[len(out)]))
+//@ modifies iterator.i, MapDom[string,*Schema]@db.schemas, MapVal[string,*Schema]@db.schemas, MapCard[string,*Schema]@db.schemas, Async.routineStarted, MapDom[string,*objectMap], MapVal[string,*objectMap], MapCard[string,*objectMap], MapDom[string,Object], MapVal[string,Object], MapCard[string,Object]
+//@ allocates Elem[string], Elem[Object], iterator.db, iterator.t, iterator.i, iterator.reverse, iterator.uuids, iterator.tdyn, Object.content, Object.uuid, Object.stage, objectMap.m, objectMap.RWMutex
+
+//@ func Assign
+//@ serves C01 C19
+//@ trusted "reflection: copies the objects into the caller's slice; panics on a target of the wrong type (documented misuse)"
+//@ may_panic "target must be a *[]T with T implementing sod.Object (documented)"
+//@ ensures err == nil
+//@ modifies nothing
+
+//@ func AssignOne
+//@ serves C01 C19
+//@ trusted "reflection: stores the object into the caller's variable; panics on a target of the wrong type (documented misuse)"
+//@ may_panic "target must be a *T with T implementing sod.Object (documented)"
+//@ modifies nothing
+
+//@ func (*DB).Iterator
+//@ serves C01 C08 C09
+//@ requires [wf] wfDBbase(db) && of != nil
+//@ requires [C09 lock-free] lockFree()
+//@ let T string := stypeOf(dyntype(of))
+//@ ensures [C08 one-section] ACQ_H == old(ACQ_H) + 1
+//@ ensures [C01 Iter.sound] imp(err == nil, it != nil && has(db.schemas, T) && forall(k, 0, len(it.uuids), has(db.schemas[T].ObjectIndex.uuids, it.uuids[k])) && forall(a, 0, len(it.uuids), forall(b, a+1, len(it.uuids), it.uuids[a] != it.uuids[b])))
+//@ ensures [C17 Iter.readonly] FSk == old(FSk) && FSc == old(FSc)
+//@ modifies Ghost.ACQ_H, MapDom[string,*Schema]@db.schemas, MapVal[string,*Schema]@db.schemas, MapCard[string,*Schema]@db.schemas, Async.routineStarted
+
+//@ func (*DB).Count
+//@ serves C01 C08 C09 C12
+//@ requires [wf] wfDBbase(db) && of != nil
+//@ requires [C09 lock-free] lockFree()
+//@ ensures [C08 one-section] ACQ_H == old(ACQ_H) + 1
+//@ ensures [C17 Count.readonly] FSk == old(FSk) && FSc == old(FSc)
+//@ modifies Ghost.ACQ_H, MapDom[string,*Schema]@db.schemas, MapVal[string,*Schema]@db.schemas, MapCard[string,*Schema]@db.schemas, Async.routineStarted
+
+//@ func (*DB).All
+//@ serves C01 C08 C09 C12 C14
+//@ requires [wf] wfDB(db) && of != nil
+//@ requires [C09 lock-free] lockFree()
+//@ let T string := stypeOf(dyntype(of))
+//@ ghost w garray[string]int := all_w
+//@ ensures [C08 one-section] ACQ_H == old(ACQ_H) + 1
+//@ ensures [C01 All.sound] imp(err == nil && has(db.schemas, T) && db.schemas[T].coherent, forall(k, 0, len(out), out[k] != nil && has(db.schemas[T].ObjectIndex.uuids, out[k].uuid) && out[k].content == value(db, db.schemas[T], out[k].uuid)))
+//@ ensures [C01 All.complete] imp(err == nil && has(db.schemas, T) && db.schemas[T].coherent, forallk(u, string, imp(has(db.schemas[T].ObjectIndex.uuids, u), 0 <= w[u] && w[u] < len(out) && out[w[u]].uuid == u)))
+//@ ensures [C01 All.wf] wfDB(db)
+//@ ensures [C17 All.readonly] FSk == old(FSk) && FSc == old(FSc)
+//@ modifies Ghost.ACQ_H, iterator.i, MapDom[string,*Schema]@db.schemas, MapVal[string,*Schema]@db.schemas, MapCard[string,*Schema]@db.schemas, Async.routineStarted, MapDom[string,*objectMap], MapVal[string,*objectMap], MapCard[string,*objectMap], MapDom[string,Object], MapVal[string,Object], MapCard[string,Object]
+
+//@ func (*DB).AssignAll
+//@ serves C01 C08 C09
+//@ requires [wf] wfDB(db) && of != nil
+//@ requires [C09 lock-free] lockFree()
+//@ ensures [C08 one-section] ACQ_H == old(ACQ_H) + 1
+//@ ensures [C01 AssignAll.wf] wfDB(db)
+//@ ensures [C17 AssignAll.readonly] FSk == old(FSk) && FSc == old(FSc)
+//@ modifies Ghost.ACQ_H, iterator.i, MapDom[string,*Schema]@db.schemas, MapVal[string,*Schema]@db.schemas, MapCard[string,*Schema]@db.schemas, Async.routineStarted, MapDom[string,*objectMap], MapVal[string,*objectMap], MapCard[string,*objectMap], MapDom[string,Object], MapVal[string,Object], MapCard[string,Object]
